@@ -151,6 +151,10 @@ type v18HReq struct {
 	proto string
 	body  []byte
 	raw   []byte
+	// CONNECT only: extra headers that change how net/http frames the request ("" = none).
+	// Whatever they say, every byte behind the blank line belongs to the tunnel.
+	frame     string // kind, for classes / fingerprint
+	frameHdrs string
 }
 
 type v18Cut struct {
@@ -272,12 +276,20 @@ func (r *v18HReq) build(c *v18HCase) {
 	case "post":
 		r.raw = append([]byte(fmt.Sprintf("POST http://%s/submit %s\r\nHost: %s\r\n%sContent-Length: %d\r\n%s\r\n", hp, r.proto, hp, kh, len(r.body), ah)), r.body...)
 	case "connect":
-		r.raw = []byte(fmt.Sprintf("CONNECT %s %s\r\nHost: %s\r\n%s%s\r\n", hp, r.proto, hp, ah, kh))
+		r.raw = []byte(fmt.Sprintf("CONNECT %s %s\r\nHost: %s\r\n%s%s%s\r\n", hp, r.proto, hp, ah, r.frameHdrs, kh))
 	case "originform":
 		r.raw = []byte(fmt.Sprintf("GET /p %s\r\nHost: %s\r\n%s%s\r\n", r.proto, hp, ah, kh))
 	case "garbage":
 		r.raw = append([]byte("\x16\x03\x01\x02\x00\x01\x00\x01\xfc\x03\x03"), []byte(fmt.Sprintf(" %s\r\n%s\r\n", hp, ah))...)
 	}
+}
+
+var v18FrameKinds = []string{"cl0", "cl1", "cl=payload", "cl=payload", "cl=payload-1", "cl=payload+1", "cl>sent", "cl-half", "chunked", "chunked", "chunked-looks-framed",
+	"chunked+cl", "expect100", "expect100-nocl", "dup-cl-same", "dup-cl-differ", "cl-list", "conn-close+cl", "te-identity"}
+
+func (hc *v18HConn) framedConnect() bool {
+	r := hc.reqs[len(hc.reqs)-1]
+	return r.kind == "connect" && r.frame != ""
 }
 
 func v18GenHConn(rt *rapid.T, c *v18HCase, ci int) *v18HConn {
@@ -324,23 +336,69 @@ func v18GenHConn(rt *rapid.T, c *v18HCase, ci int) *v18HConn {
 				r.proto = "HTTP/1.0"
 			}
 		}
-		r.build(c)
+		if r.kind == "connect" && rapid.IntRange(0, 9).Draw(rt, "framed") < 4 {
+			r.frame = rapid.SampledFrom(v18FrameKinds).Draw(rt, "frame")
+		}
 		hc.reqs = append(hc.reqs, r)
 		if r.kind == "connect" {
 			break
 		}
 	}
-	for _, r := range hc.reqs {
-		hc.stream = append(hc.stream, r.raw...)
-	}
-	hc.headLen = len(hc.stream)
-	hasConnect := hc.reqs[len(hc.reqs)-1].kind == "connect"
+	lastReq := hc.reqs[len(hc.reqs)-1]
+	hasConnect := lastReq.kind == "connect"
 	if hasConnect || rapid.IntRange(0, 4).Draw(rt, "trailingJunk") == 0 {
 		pl := rapid.SampledFrom([]int{0, 1, 2, 19, 64, 300, 5000, 9000}).Draw(rt, "payloadLen")
 		hc.payload = v18Bytes(pl, uint32(rapid.IntRange(0, 1<<20).Draw(rt, "payloadSeed")))
-		hc.stream = append(hc.stream, hc.payload...)
 	}
 	hc.later = v18Bytes(rapid.SampledFrom([]int{0, 1, 33, 700}).Draw(rt, "laterLen"), uint32(ci+77))
+	if hasConnect && lastReq.frame != "" {
+		pl, ll := len(hc.payload), len(hc.later)
+		cl := func(n int) string { return fmt.Sprintf("Content-Length: %d\r\n", max(n, 0)) }
+		switch lastReq.frame {
+		case "cl0":
+			lastReq.frameHdrs = cl(0)
+		case "cl1":
+			lastReq.frameHdrs = cl(1)
+		case "cl=payload":
+			lastReq.frameHdrs = cl(pl)
+		case "cl=payload-1":
+			lastReq.frameHdrs = cl(pl - 1)
+		case "cl=payload+1":
+			lastReq.frameHdrs = cl(pl + 1)
+		case "cl>sent": // more than payload + later: a server that waits for a "body" needs the filler
+			lastReq.frameHdrs = cl(pl + ll + 10)
+		case "cl-half":
+			lastReq.frameHdrs = cl((pl + 1) / 2)
+		case "chunked":
+			lastReq.frameHdrs = "Transfer-Encoding: chunked\r\n"
+		case "chunked-looks-framed":
+			lastReq.frameHdrs = "Transfer-Encoding: chunked\r\n"
+			pre := []byte("5\r\nhello\r\n1a\r\nabcdefghijklmnopqrstuvwxyz\r\n0\r\n\r\n")
+			hc.payload = append(pre, hc.payload...)
+		case "chunked+cl":
+			lastReq.frameHdrs = "Transfer-Encoding: chunked\r\n" + cl(pl)
+		case "expect100":
+			lastReq.frameHdrs = "Expect: 100-continue\r\n" + cl(pl)
+		case "expect100-nocl":
+			lastReq.frameHdrs = "Expect: 100-continue\r\n"
+		case "dup-cl-same":
+			lastReq.frameHdrs = cl(pl) + cl(pl)
+		case "dup-cl-differ":
+			lastReq.frameHdrs = cl(pl) + cl(pl+3)
+		case "cl-list":
+			lastReq.frameHdrs = fmt.Sprintf("Content-Length: %d, %d\r\n", pl, pl)
+		case "conn-close+cl":
+			lastReq.frameHdrs = "Connection: close\r\n" + cl(pl)
+		case "te-identity":
+			lastReq.frameHdrs = "Transfer-Encoding: identity\r\n" + cl(pl)
+		}
+	}
+	for _, r := range hc.reqs {
+		r.build(c)
+		hc.stream = append(hc.stream, r.raw...)
+	}
+	hc.headLen = len(hc.stream)
+	hc.stream = append(hc.stream, hc.payload...)
 	dl := rapid.SampledFrom([]int{0, 1, 5, 100, 40000}).Draw(rt, "downLen")
 	hc.down = v18Bytes(dl, uint32(rapid.IntRange(0, 1<<20).Draw(rt, "downSeed")))
 	if dl > 1 {
@@ -432,7 +490,7 @@ func v18GenHCase(rt *rapid.T) *v18HCase {
 }
 
 func (r *v18HReq) String() string {
-	return fmt.Sprintf("%s %s:%d %s auth=%s keep=%d body=%d", r.kind, r.host, r.port, r.proto, v18AuthNames[r.auth], r.keep, len(r.body))
+	return fmt.Sprintf("%s %s:%d %s auth=%s keep=%d body=%d frame=%q", r.kind, r.host, r.port, r.proto, v18AuthNames[r.auth], r.keep, len(r.body), r.frameHdrs)
 }
 
 func (hc *v18HConn) String() string {
@@ -489,7 +547,7 @@ func v18Done(ch chan struct{}) bool {
 	}
 }
 
-func v18RunHConn(c *v18HCase, hc *v18HConn, ci int, srv *Server, hy *v18Hy, log *v18Log) string {
+func v18RunHConn(c *v18HCase, hc *v18HConn, ci int, srv *Server, hy *v18Hy, log *v18Log, class func(string)) string {
 	log.setPhase(ci)
 	started := time.Now()
 	cli, sc := v18NewPair(fmt.Sprintf("c%d", ci), fmt.Sprintf("127.0.0.1:%d", 40000+ci), "127.0.0.1:8080")
@@ -538,15 +596,47 @@ func v18RunHConn(c *v18HCase, hc *v18HConn, ci int, srv *Server, hy *v18Hy, log 
 	var viol string
 	if connectIdx >= 0 {
 		host := hc.reqs[connectIdx].host
+		framed := hc.framedConnect()
+		// Everything behind the blank line of the CONNECT head belongs to the tunnel, whatever
+		// Content-Length / Transfer-Encoding / Expect say. Whether the server serves such a head at
+		// all is its business: forwarding is asserted only if an upstream call is observed.
+		want := append([]byte(nil), hc.payload...)
+		sentLater := false
 		var up *v18Up
-		if !v18WaitUntil(v18Patience, func() bool { up = hy.upForHost(host); return up != nil || v18Done(done) }) {
+		settled := func() bool {
+			up = hy.upForHost(host)
+			return up != nil || v18Done(done) || (framed && cli.PeerIdle())
+		}
+		if !v18WaitUntil(v18Patience, settled) {
 			vInconclusive("C18 http: neither upstream call nor handler return")
 		}
 		if up == nil {
 			up = hy.upForHost(host)
 		}
+		if up == nil && framed && !v18Done(done) {
+			// parked in Read without having dialled: it waits for more client bytes (a "body"?).
+			// Give it the later bytes and a filler; if it dials then, all of it was tunnel data.
+			class("framed:parked-before-dial")
+			extra := append(append([]byte(nil), hc.later...), v18Bytes(64, 4242)...)
+			_, _ = cli.Write(extra)
+			want = append(want, extra...)
+			sentLater = true
+			if !v18WaitUntil(v18Patience, settled) {
+				vInconclusive("C18 http: neither upstream call nor handler return")
+			}
+			if up == nil {
+				up = hy.upForHost(host)
+			}
+		}
 		if up == nil {
+			if framed {
+				class("framed:" + hc.reqs[connectIdx].frame + ":not-dialled")
+				finish()
+				goto gating
+			}
 			viol = fmt.Sprintf("well-formed authorised CONNECT %s was not relayed (handler returned without HyClient.TCP); client received %q", host, v18Clip(cli.Drain()))
+		} else if framed {
+			class("framed:" + hc.reqs[connectIdx].frame + ":dialled")
 		}
 		var got []byte
 		check := func(want []byte, what string) string {
@@ -560,7 +650,7 @@ func v18RunHConn(c *v18HCase, hc *v18HConn, ci int, srv *Server, hy *v18Hy, log 
 			return ""
 		}
 		if viol == "" {
-			viol = check(hc.payload, "bytes pipelined behind the CONNECT head")
+			viol = check(want, "bytes pipelined behind the CONNECT head")
 		}
 		if viol == "" {
 			pcuts := append(append([]int(nil), hc.downCuts...), len(hc.down))
@@ -582,9 +672,9 @@ func v18RunHConn(c *v18HCase, hc *v18HConn, ci int, srv *Server, hy *v18Hy, log 
 				viol = fmt.Sprintf("client received %d bytes %s behind the 200, upstream wrote %d bytes %s", len(rest), v18Hex(rest), len(hc.down), v18Hex(hc.down))
 			}
 		}
-		if viol == "" && len(hc.later) > 0 {
+		if viol == "" && len(hc.later) > 0 && !sentLater {
 			_, _ = cli.Write(hc.later)
-			viol = check(append(append([]byte(nil), hc.payload...), hc.later...), "bytes sent after the tunnel was up")
+			viol = check(append(want, hc.later...), "bytes sent after the tunnel was up")
 		}
 		if viol == "" && v18Done(done) {
 			viol = "tunnel ended although neither side closed"
@@ -596,6 +686,7 @@ func v18RunHConn(c *v18HCase, hc *v18HConn, ci int, srv *Server, hy *v18Hy, log 
 	}
 	finish()
 
+gating:
 	// ---- gating: final log for this connection (handler returned; dials are synchronous with their request)
 	byHost := map[string]*v18HReq{}
 	for _, r := range hc.reqs {
@@ -727,7 +818,10 @@ func v18SkipResponses(b []byte, reqs []*v18HReq, _ []byte) ([]byte, error) {
 	return rest, nil
 }
 
-func v18RunHCase(c *v18HCase) (string, *v18Log) {
+func v18RunHCase(c *v18HCase, class func(string)) (string, *v18Log) {
+	if class == nil {
+		class = func(string) {}
+	}
 	log := &v18Log{}
 	hy := &v18Hy{log: log, rawHost: map[string]bool{}}
 	for _, hc := range c.conns {
@@ -756,7 +850,7 @@ func v18RunHCase(c *v18HCase) (string, *v18Log) {
 		}
 	}()
 	for i, hc := range c.conns {
-		if v := v18RunHConn(c, hc, i, srv, hy, log); v != "" {
+		if v := v18RunHConn(c, hc, i, srv, hy, log, class); v != "" {
 			return fmt.Sprintf("conn%d: %s", i, v), log
 		}
 	}
@@ -771,8 +865,11 @@ func v18ClassifyH(c *v18HCase) (nt bool, fp string, classes []string) {
 		nClean, connectIdx := hc.cleanPrefix(c)
 		sb.WriteString("|")
 		for _, r := range hc.reqs {
-			fmt.Fprintf(&sb, "%s/%d/%d/%d/%s,", r.kind, r.auth, r.keep, r.port, r.proto)
+			fmt.Fprintf(&sb, "%s/%d/%d/%d/%s/%s,", r.kind, r.auth, r.keep, r.port, r.proto, r.frame)
 			classes = append(classes, "req:"+r.kind, "auth:"+v18AuthNames[r.auth])
+			if r.frame != "" {
+				classes = append(classes, "connect-framing-headers")
+			}
 		}
 		fmt.Fprintf(&sb, "p%d/l%d/d%d/", len(hc.payload), len(hc.later), len(hc.down))
 		for _, ct := range hc.cuts {
@@ -836,7 +933,7 @@ func TestVerifC18_HTTPGate(t *testing.T) {
 		c := v18GenHCase(rt)
 		nt, fp, classes := v18ClassifyH(c)
 		st.Case(nt, fp, classes, c.String)
-		viol, log := v18RunHCase(c)
+		viol, log := v18RunHCase(c, st.Class)
 		if viol != "" {
 			rt.Fatalf("C18: HTTP: %s\ncase: %s\nlog: %s", viol, c, log)
 		}
@@ -893,7 +990,37 @@ func TestVerifC18_HTTPRegress(t *testing.T) {
 			}
 			c.conns = []*v18HConn{hc}
 			st.Case(true, fmt.Sprintf("%d/%d", si, mode), []string{"regress"}, c.String)
-			if viol, log := v18RunHCase(c); viol != "" {
+			if viol, log := v18RunHCase(c, nil); viol != "" {
+				t.Fatalf("C18: HTTP: %s\ncase: %s\nlog: %s", viol, c, log)
+			}
+		}
+	}
+	// CONNECT heads with framing headers: whatever they announce, the bytes behind the blank line are tunnel data
+	payload := []byte("5\r\nhello\r\n0\r\n\r\n\x16\x03\x01 client hello, 40 bytes or so....")
+	for fi, hdrs := range []string{
+		fmt.Sprintf("Content-Length: %d\r\n", len(payload)),
+		"Content-Length: 1\r\n",
+		fmt.Sprintf("Content-Length: %d\r\n", len(payload)+20),
+		"Transfer-Encoding: chunked\r\n",
+		fmt.Sprintf("Expect: 100-continue\r\nContent-Length: %d\r\n", len(payload)),
+		"Content-Length: 0\r\n",
+	} {
+		for mode := 0; mode < 3; mode++ {
+			c := &v18HCase{authOn: true, user: "user", pass: "p:w"}
+			r := &v18HReq{kind: "connect", auth: v18AuthValid, host: fmt.Sprintf("f%d.http.test", fi), port: 443, proto: "HTTP/1.1", frame: fmt.Sprintf("regress%d", fi), frameHdrs: hdrs}
+			r.build(c)
+			hc := &v18HConn{reqs: []*v18HReq{r}, payload: payload, later: []byte("later bytes, twenty+ of them"), down: []byte("server hello")}
+			hc.stream = append(append([]byte(nil), r.raw...), payload...)
+			hc.headLen = len(r.raw)
+			switch mode {
+			case 1:
+				hc.cuts = []v18Cut{{hc.headLen, 2}}
+			case 2:
+				hc.cuts = []v18Cut{{hc.headLen + 3, 0}}
+			}
+			c.conns = []*v18HConn{hc}
+			st.Case(true, fmt.Sprintf("framed/%d/%d", fi, mode), []string{"regress-framed"}, c.String)
+			if viol, log := v18RunHCase(c, nil); viol != "" {
 				t.Fatalf("C18: HTTP: %s\ncase: %s\nlog: %s", viol, c, log)
 			}
 		}
